@@ -1539,8 +1539,10 @@ func (n *RegexNode) reduceConcatenationWithAdjacentLoops() {
 					next++
 					continue
 				}
-			} else if (currentNode.T == NtOneloop || currentNode.T == NtOnelazy) && nextNode.T == NtMulti && currentNode.Ch == nextNode.Str[0] {
-				// Coalescing a loop with a subsequent string
+			} else if (currentNode.T == NtOneloop || currentNode.T == NtOnelazy) && nextNode.T == NtMulti && currentNode.Ch == nextNode.Str[0] &&
+				(currentNode.Options&RightToLeft) == 0 {
+				// Coalescing a loop with a subsequent string (left-to-right only: right-to-left, the
+				// string's last character is the one next to the loop, not its first)
 				// Determine how many of the multi's characters can be combined.
 				// We already checked for the first, so we know it's at least one.
 				matchingCharsInMulti := 1
